@@ -8,6 +8,10 @@
 //!   enumx <parser> <maxlen> <alphabet> <prefix>   the same over any alphabet (letters of both cases, deeper sub-alphabets)
 //!   o1 <text> / o2 <text>             arbitrary Unicode text (any character class), judged by the oracle alone
 //!   long <parser> <kind> <n>          a text of up to 10^6 characters built from (kind, n); totality + exact meaning
+//!   long <parser> <100+site> <char>   every long fragment (1..80, 130, 200, 260 bytes) at `site` (exponent, coefficient, constant,
+//!                                     variable run, fraction ...) with multi-byte character number <char> at every byte offset:
+//!                                     never a panic, an accepted text means what it says
+//!   long <parser> <200+site> <code>   one case of such a sweep, code = ((twin * 100 + char) * 1000 + bytes) * 1000 + offset
 //!
 //! Oracle (independent of the Lean model): a *conventional-reading* evaluator.  Whenever a parser accepts a
 //! text, the text (white space removed) must have a reading as an arithmetic expression over numbers,
@@ -485,7 +489,7 @@ pub fn run(line: &str) -> Obs {
             let parser = t.usize();
             let kind = t.usize();
             let n = t.usize();
-            let (a, v) = long_case(parser, kind, n);
+            let (a, v) = if kind >= 200 { frag_single(parser, kind - 200, n) } else if kind >= 100 { frag_sweep(parser, kind - 100, n) } else { long_case(parser, kind, n) };
             Obs::with(a, v)
         }
         other => panic!("unknown C16 request {other}"),
@@ -682,6 +686,138 @@ fn long_case(parser: usize, kind: usize, n: usize) -> (String, Result<(), String
     (shown, verdict)
 }
 
+// ---------------------------------------------------------------- long rejected fragments with multi-byte characters
+//
+// "never panics, whatever the characters, lengths ...": an error value may quote the rejected piece of text, and code that
+// shortens, pads or splits such a quotation by BYTE offsets panics when a multi-byte character lies across the offset.  So
+// every place of a term where a parser collects text (exponent, coefficient, fraction parts, constant, the run of letters,
+// junk after the variable) is filled with a fragment of every byte length 1..80 (and 130, 200, 260) that contains one
+// character of 2, 3 or 4 bytes at every byte offset - characters of every class the parsers consult (letter, number,
+// white space, none), so that the character lands inside the collected text whatever stops the collection.
+
+/// multi-byte characters: (2, 3, 4 bytes) x (alphabetic, numeric, symbol, white space, no class)
+pub const MB_CHARS: &[char] = &[
+    'é', '²', '×', '٣', '\u{85}', 'ℝ', '€', '२', '０', '中', '\u{2028}', '\u{200b}', '😀', '𝟐', '𝑥', '\u{e0001}',
+];
+
+/// (text before the fragment, the ASCII character the fragment is filled with, text after it)
+pub const FRAG_SITES: &[(&str, char, &str)] = &[
+    ("3x^", '9', ""),        // exponent
+    ("3x^", '1', "+1"),      // exponent, another term follows
+    ("", '7', "x"),          // coefficient
+    ("2x+", '7', "x^2"),     // coefficient of a later term
+    ("x+", '5', ""),         // constant beside a variable
+    ("", '5', ""),           // constant alone (the whole text)
+    ("x", 'x', ""),          // run of the same letter
+    ("2", 'y', "+1"),        // run of letters after a coefficient
+    ("x^1/", '2', ""),       // denominator of a fractional exponent
+    ("1/", '3', "x"),        // denominator of a fractional coefficient
+    ("x^-", '4', "y"),       // negative exponent
+    ("x^2.", '0', "y"),      // decimals of an exponent
+    ("1.", '0', "x"),        // decimals of a coefficient
+    ("x", '.', ""),          // junk after the variable
+    ("", '/', "x"),          // slashes where the coefficient stands
+    ("x^", '/', ""),         // slashes where the exponent stands
+    ("x^", '.', "+x"),       // dots where the exponent stands
+    ("2", ' ', "x"),         // white space inside a term (offsets of the text as written)
+    ("-", '-', "x"),         // a run of signs
+    ("xy", '^', "2"),        // a run of carets
+    ("x^2+", '1', "#"),      // a symbol without meaning after the fragment
+    ("2", '7', "#x"),        // ... inside the coefficient
+    ("x", ' ', "# + 1"),     // ... after white space (offsets of the text as written)
+    ("x^2+y", ' ', "z"),     // white space in front of a second variable
+];
+
+/// byte lengths of the fragments of a sweep (tools/props/c16.py `FRAG_LENGTHS` must list the same)
+fn frag_lengths() -> Vec<usize> {
+    (1..=80).chain([130, 200, 260]).collect()
+}
+
+/// the text with a fragment of `len` bytes at `site` whose character at byte offset `pos` is `ch` (None: it does not fit);
+/// `twin` = 1: the fragment also begins with `ch`, 2: it also ends with `ch` (a window cut around one character meets the other)
+fn frag_text(site: usize, ch: char, len: usize, pos: usize, twin: usize) -> Option<String> {
+    let (pre, fill, post) = *FRAG_SITES.get(site)?;
+    let w = ch.len_utf8();
+    if pos + w > len || (twin == 1 && pos < w) || (twin == 2 && pos + 2 * w > len) || twin > 2 {
+        return None;
+    }
+    let mut s = String::with_capacity(pre.len() + len + post.len());
+    s.push_str(pre);
+    let mut at = 0;
+    while at < len {
+        if at == pos || (twin == 1 && at == 0) || (twin == 2 && at == len - w) {
+            s.push(ch);
+            at += w;
+        } else {
+            s.push(fill);
+            at += 1;
+        }
+    }
+    s.push_str(post);
+    Some(s)
+}
+
+/// the cheap part of `answer`: both entry points return (no panic); an accepted text gets the full verdict
+fn frag_verdict(parser: usize, text: &str) -> Result<bool, String> {
+    let accepted = if parser == 1 {
+        let a = catch(|| SimplePolynomial::parse(text)).ok_or("the parser panicked")?;
+        let b = catch(|| parse_simple_polynomial(text.to_string())).ok_or("parse_simple_polynomial panicked")?;
+        if a.is_ok() != b.is_ok() {
+            return Err("entry points differ: the trait method and the free function do not both accept / reject".into());
+        }
+        a.is_ok()
+    } else {
+        let a = catch(|| IntermediatePolynomial::parse(text)).ok_or("the parser panicked")?;
+        let b = catch(|| parse_intermediate_polynomial(text.to_string())).ok_or("parse_intermediate_polynomial panicked")?;
+        if a.is_ok() != b.is_ok() {
+            return Err("entry points differ: the trait method and the free function do not both accept / reject".into());
+        }
+        a.is_ok()
+    };
+    if accepted {
+        answer(parser, text).1?;
+    }
+    Ok(accepted)
+}
+
+fn frag_sweep(parser: usize, site: usize, ci: usize) -> (String, Result<(), String>) {
+    let Some(&ch) = MB_CHARS.get(ci) else { return ("-".into(), Ok(())) };
+    let (mut n, mut ok) = (0u64, 0u64);
+    let mut first: Option<(String, String)> = None;
+    for len in frag_lengths() {
+        for pos in 0..len {
+            for twin in 0..3 {
+                if twin > 0 && len > 80 {
+                    continue;
+                }
+                let Some(text) = frag_text(site, ch, len, pos, twin) else { continue };
+                n += 1;
+                match frag_verdict(parser, &text) {
+                    Ok(true) => ok += 1,
+                    Ok(false) => {}
+                    Err(e) => {
+                        if first.is_none() || first.as_ref().is_some_and(|(t, _)| t.len() > text.len()) {
+                            first = Some((text, e));
+                        }
+                    }
+                }
+            }
+        }
+    }
+    let verdict = match first {
+        None => Ok(()),
+        Some((t, e)) => Err(format!("on {:?} [{}] ({} bytes): {e}", t, req_string(&t), t.len())),
+    };
+    (format!("swept {n} {ok}"), verdict)
+}
+
+fn frag_single(parser: usize, site: usize, code: usize) -> (String, Result<(), String>) {
+    let (twin, ci, len, pos) = (code / 100_000_000, code / 1_000_000 % 100, code / 1000 % 1000, code % 1000);
+    let Some(text) = MB_CHARS.get(ci).and_then(|ch| frag_text(site, *ch, len, pos, twin)) else { return ("-".into(), Ok(())) };
+    let (a, v) = answer(parser, &text);
+    (a, v.map_err(|e| format!("on {:?} [{}] ({} bytes): {e}", text, req_string(&text), text.len())))
+}
+
 // ---------------------------------------------------------------- generators
 
 /// a character the Lean model classifies like Rust does: ASCII, a table character, or a character that is in
@@ -772,9 +908,26 @@ pub fn generate(seed: u64, thorough: bool, emit: &mut dyn FnMut(String)) {
             }
         }
     }
+    // long fragments with a multi-byte character at every byte offset: one sweep per (parser, site, character), spread
+    // over the cheap requests below so that the batches of the parallel run stay balanced
+    let mut sweeps: Vec<String> = Vec::new();
+    for parser in [1usize, 2] {
+        for site in 0..FRAG_SITES.len() {
+            for ci in 0..MB_CHARS.len() {
+                sweeps.push(format!("long {parser} {} {ci}", 100 + site));
+            }
+        }
+    }
+    sweeps.reverse();
     // mutated grammatical strings with arbitrary (model-classifiable) Unicode
     let n = if thorough { 200_000 } else { 6000 };
+    let every = (n / (sweeps.len() + 1)).max(1);
     for i in 0..n {
+        if i % every == 0 {
+            if let Some(l) = sweeps.pop() {
+                emit(l);
+            }
+        }
         let base = if i % 2 == 0 {
             crate::c01::gen_poly_text(&mut rng).0
         } else {
@@ -786,6 +939,36 @@ pub fn generate(seed: u64, thorough: bool, emit: &mut dyn FnMut(String)) {
         let text = mutate(&mut rng, &base);
         let parser = 1 + rng.below(2);
         emit(format!("parse{parser} {}", req_string(&text)));
+    }
+    for l in sweeps.drain(..) {
+        emit(l);
+    }
+    // the same fragments as single texts where the character lies across byte 16, 32 or 64 - counted from the start of
+    // the fragment, from the start of the text, and from the end of the text
+    for (site, (pre, _, post)) in FRAG_SITES.iter().enumerate() {
+        for &ch in &['é', '٣', '€', '२', '😀', '𝟐'] {
+            let w = ch.len_utf8();
+            for b in [16usize, 32, 64] {
+                for inside in 1..w {
+                    // the character starts `inside` bytes before the boundary
+                    let mut cases: Vec<(usize, usize)> = Vec::new(); // (len, pos)
+                    let long = b + 40;
+                    cases.push((long, b - inside)); // boundary counted from the start of the fragment
+                    if b > pre.len() + inside {
+                        cases.push((long, b - inside - pre.len())); // from the start of the text
+                    }
+                    if long >= b + inside + post.len() {
+                        cases.push((long, long + post.len() - b - inside)); // from the end of the text
+                    }
+                    for (len, pos) in cases {
+                        if let Some(text) = frag_text(site, ch, len, pos, 0) {
+                            emit(format!("o1 {}", req_string(&text)));
+                            emit(format!("o2 {}", req_string(&text)));
+                        }
+                    }
+                }
+            }
+        }
     }
     // (a) letters of both cases, a third letter and non-ASCII letters, exhaustively with the operators of the grammar
     let letters: String = LETTER_ALPHABET.iter().collect();
@@ -947,6 +1130,41 @@ pub fn generate(seed: u64, thorough: bool, emit: &mut dyn FnMut(String)) {
         for (kind, n) in [(0usize, 65536usize), (0, 100000), (3, 1000000), (11, 1000000), (18, 250000), (2, 1000000)] {
             emit(format!("long 1 {kind} {n}"));
             emit(format!("long 2 {kind} {n}"));
+        }
+    }
+    // words and literal forms that OTHER number parsers understand (f64::from_str: inf, infinity, nan in any case, 1e5, 1E-5;
+    // other languages: 0x10, 0b1, 1_000, 1f, 1u8, 3j ...): in a polynomial they are products of single-letter variables
+    // (i*n*f) or not polynomials at all - accepted only with exactly that meaning, wherever they stand
+    {
+        let mut words: Vec<String> = Vec::new();
+        for w in ["inf", "nan", "e"] {
+            for m in 0..(1u32 << w.len()) {
+                words.push(w.chars().enumerate().map(|(k, c)| if m >> k & 1 == 1 { c.to_ascii_uppercase() } else { c }).collect());
+            }
+        }
+        for w in ["infinity", "INFINITY", "Infinity", "iNFINITY", "infinitY", "InFiNiTy", "pi", "PI", "Pi", "tau", "ln", "exp", "NaN", "nil", "true"] {
+            words.push(w.to_string());
+        }
+        for w in &words {
+            for t in [
+                format!("{w}"), format!("-{w}"), format!("+{w}"), format!("x+{w}"), format!("x - {w}"), format!("{w}+x"), format!("{w}x"), format!("x{w}"), format!("2{w}"),
+                format!("x^{w}"), format!("x^-{w}"), format!("{w}^2"), format!("1/{w}"), format!("{w}/2"), format!("2x + {w} + 1"), format!("x^2 - {w}x"), format!("{w}{w}"),
+                format!("1.5{w}"), format!("{w}.5"), format!(" {w} "),
+            ] {
+                emit(format!("parse1 {}", req_string(&t)));
+                emit(format!("parse2 {}", req_string(&t)));
+            }
+        }
+        for lit in [
+            "1e5", "1E5", "1e+5", "1e-5", "1E+5", "1E-5", "2.5e3", ".5e1", "5.e1", "1e", "1e+", "1e5x", "x1e5", "xe5", "x^1e2", "x^1e+2", "x^2e", "1e5x^2", "2x+1e3", "2x + 1e-3", "1e+5e",
+            "1e400", "1e-400", "-1e5", "0x10", "0x1f", "0xf", "0XF", "0x", "0b1", "0b", "0o7", "0o", "1_000", "1_000x", "x^1_0", "1f", "1f32", "1.0f", "2d", "1L", "1u8", "1u", "3j", "3i",
+            "1.5j", "+.5", "1.", ".5", ".", "1..2", "1.2.3", "0e0", "0e", "00", "-0", "+0", "1,5", "1,000", "1 000", "1'000", "1e5 x", "x e5", "1 e 5", "1 e + 5", "x^+2", "x^ 2", "x ^2",
+            "x**2", "x^^2", "2^x", "2^2", "2^2x", "10^3x", "x^2^3", "√x", "x²", "2·x", "x×2", "∞", "-∞", "x+∞", "π", "2π", "πx", "1/2", "1/2x", "x/2", "x^1/2", "1/x", "%", "50%", "x%", "$1", "1$",
+        ] {
+            let ascii_or_table = lit.chars().all(|c| c.is_ascii() || crate::c01::TABLE_CHARS.contains(&c) || (!c.is_whitespace() && !c.is_alphabetic() && !c.is_numeric()));
+            for parser in [1, 2] {
+                emit(format!("{}{parser} {}", if ascii_or_table { "parse" } else { "o" }, req_string(lit)));
+            }
         }
     }
     // exponent magnitudes
